@@ -5,6 +5,7 @@
 #include "mc/mc.hpp"
 #include "mc/faults.hpp"
 #include "checks/map_common.hpp"
+#include "Stream/FileReader.h"
 #include <memory>
 #include <set>
 #include <functional>
@@ -281,6 +282,9 @@ void equivalenceCase(Ctx& ctx, std::size_t part, std::size_t parts)
 			Map c2;
 			auto oc = mc::guarded([&] { c2 = Map::ReadSavedGame(path); });
 			if (oc.cls != 'R' || mapc::dump(c2) != mapc::dump(b)) { ctx.violation("C07/equivalence/saved-game-file-overload-differs", key, oc.what); continue; }
+			Map c3;
+			auto ot = mc::guarded([&] { c3 = Map::ReadSavedGame(Stream::FileReader(path)); });   // the overload taking a temporary stream
+			if (ot.cls != 'R' || mapc::dump(c3) != mapc::dump(b)) { ctx.violation("C07/equivalence/saved-game-temporary-stream-overload-differs", key, ot.what); continue; }
 			ctx.count("equivalence/file-overload");
 		}
 		ctx.count("equivalence/pairs");
